@@ -172,37 +172,46 @@ class PartialOps:
         return out
 
     def _find_int_recognisers(self) -> Set[str]:
-        """Single-parameter predicates of the form
-        `[if isinstance(x, int): return True]; try: int(x) except ValueError: return False; return True`."""
+        """Single-parameter predicates that return True only for an int or for something `int()` accepted:
+        partial evaluation of the body with `isinstance(x, int)` false - every way out that returns True
+        must have passed a completed `int(x)` (a path through the ValueError handler has not)."""
+        from .peval import Explorer
+
         out: Set[str] = set()
         for fn in self.repo.functions.values():
             params = [a.arg for a in fn.node.args.args if a.arg != "self"]
-            if len(params) != 1:
+            if len(params) != 1 or fn.parent is not None:
                 continue
-            body = [s for s in fn.node.body if not (isinstance(s, ast.Expr) and isinstance(s.value, ast.Constant))]
-            tries = [s for s in body if isinstance(s, ast.Try)]
-            if len(tries) != 1:
+            x = params[0]
+            if not any(isinstance(c, ast.Call) and isinstance(c.func, ast.Name) and c.func.id == "int" and len(c.args) == 1
+                       and path_of(c.args[0]) == x for c in ast.walk(fn.node)):
                 continue
-            t = tries[0]
-            ok_try = (
-                len(t.body) == 1
-                and isinstance(t.body[0], ast.Expr)
-                and isinstance(t.body[0].value, ast.Call)
-                and isinstance(t.body[0].value.func, ast.Name)
-                and t.body[0].value.func.id == "int"
-                and len(t.body[0].value.args) == 1
-                and isinstance(t.body[0].value.args[0], ast.Name)
-                and t.body[0].value.args[0].id == params[0]
-                and len(t.handlers) == 1
-                and len(t.handlers[0].body) == 1
-                and isinstance(t.handlers[0].body[0], ast.Return)
-                and isinstance(t.handlers[0].body[0].value, ast.Constant)
-                and t.handlers[0].body[0].value.value is False
+            handlers_ok = all(
+                h.type is not None and "ValueError" in ast.unparse(h.type)
+                for t in ast.walk(fn.node) if isinstance(t, ast.Try) for h in t.handlers
             )
-            if not ok_try:
+            if not handlers_ok:
                 continue
-            last = body[-1]
-            if isinstance(last, ast.Return) and isinstance(last.value, ast.Constant) and last.value.value is True:
+
+            def oracle(t: ast.expr, env: dict) -> Optional[bool]:  # type: ignore[type-arg]
+                if isinstance(t, ast.Call) and isinstance(t.func, ast.Name) and t.func.id == "isinstance" and len(t.args) == 2 \
+                        and path_of(t.args[0]) == x and ast.unparse(t.args[1]) == "int":
+                    return False
+                return None
+
+            def on_call(c: ast.Call, args, env):  # type: ignore[no-untyped-def]
+                if isinstance(c.func, ast.Name) and c.func.id == "int" and len(c.args) == 1 and path_of(c.args[0]) == x:
+                    env["$converted"] = True
+                return None
+
+            try:
+                ex = Explorer(self.folder, fn, oracle, on_call)
+                outs = ex.run({})
+            except AnalysisError:
+                continue
+            trues = [(o, e) for o, e in zip(outs, ex.envs) if o[0] == "return" and o[2] is True]
+            others = [o for o in outs if not (o[0] == "return" and isinstance(o[2], bool))]
+            if trues and not others and all(e.get("$converted") and not e.get("$handlers") for _o, e in trues):
                 out.add(fn.name)
         return out
 
